@@ -805,6 +805,8 @@ func (fr *Frame) mergeReturns() (*State, []Term) {
 		for i := len(fr.rets) - 1; i >= 0; i-- {
 			if i == len(fr.rets)-1 {
 				t = fr.rets[i].vals[k]
+			} else if i < len(ms.mergeSels) {
+				t = Ite(ms.mergeSels[i], fr.rets[i].vals[k], t)
 			} else {
 				t = Ite(fr.rets[i].st.reach, fr.rets[i].vals[k], t)
 			}
@@ -940,6 +942,17 @@ func (fr *Frame) applyContract(st *State, c *FuncContract, key string, sig *type
 		}
 	}
 	// the callee may allocate
+	var app *appendEffect
+	if c.Appends != nil {
+		a, err := vc.applyAppends(st, env, c.Appends)
+		if err != nil {
+			vc.note("contract error: %s appends: %v", key, err)
+			st.taint = True
+			vc.havocAll(st)
+		} else {
+			app = a
+		}
+	}
 	na := vc.Fresh("alloc", SInt)
 	st.assume(Ge(na, st.alloc))
 	st.alloc = na
@@ -950,9 +963,29 @@ func (fr *Frame) applyContract(st *State, c *FuncContract, key string, sig *type
 		if err != nil {
 			return nil, fr.unsupportedErr(in, err)
 		}
+		if i == 0 && app != nil && srt == SSlice && c.Appends.When == nil {
+			rs = append(rs, app.res)
+			continue
+		}
 		f := vc.Fresh(fmt.Sprintf("%s_r%d", sanitize(sk), i), srt)
 		st.assume(vc.rangeAssumption(f, res.At(i).Type(), st.alloc))
 		rs = append(rs, f)
+	}
+	if app != nil && c.Appends.When != nil && len(rs) > 0 && rs[0].Sort == SSlice {
+		// conditional append: decided by the other results
+		wenv := &SpecEnv{vc: vc, vars: map[string]SpecVal{}, cur: st, old: pre, pkg: pkg}
+		for k, v := range env.vars {
+			wenv.vars[k] = v
+		}
+		bindResults(wenv, sig, rs)
+		w, err := wenv.EvalBool(c.Appends.When)
+		if err != nil {
+			vc.note("contract error: %s appends ... when: %v", key, err)
+			st.taint = True
+		} else {
+			st.assume(Eq(app.when, w))
+			st.assume(Implies(w, Eq(rs[0], app.res)))
+		}
 	}
 	post := &SpecEnv{vc: vc, vars: map[string]SpecVal{}, cur: st, old: pre, pkg: pkg}
 	for k, v := range env.vars {
@@ -1227,6 +1260,28 @@ func (fr *Frame) builtin(st *State, b *ssa.Builtin, cc *ssa.CallCommon, args []T
 			default:
 				vc.copyRange(b, elem, dst, tbase, tl)
 			}
+		}
+		if srt, err := vc.tt.SortOf(elem); constN >= 0 && int64(len(elemVals)) == constN && k == 1 && !vc.tt.isAggregate(elem) && err == nil {
+			// Uniform encoding for append(s, x1..xN) with single-slot elements: the contents of
+			// the result are described once, wherever it lives (element j of the result is element
+			// j of s for j < len(s), else x_{j-len(s)}); only the result's base depends on whether
+			// the elements fit. Reads through the result then need no case split on fits.
+			nb := vc.allocObject(st, nil)
+			ncap := vc.Fresh("newcap", SInt)
+			st.assume(And(Ge(ncap, newLen), Lt(ncap, IntLitBig(pow2(62)))))
+			res := vc.Define("app", Ite(fits, MkSlice(SBase(s), newLen, SCap(s)), MkSlice(nb, newLen, ncap)))
+			q := Term{"q!r", SRef}
+			rb := SBase(res)
+			j := Sub(Roff(q), Roff(rb))
+			inRes := And(Eq(Rid(q), Rid(rb)), Le(Roff(rb), Roff(q)), Lt(Roff(q), Add(Roff(rb), newLen)))
+			H := vc.heap(st, srt)
+			tail := Select(H, q)
+			for i := len(elemVals) - 1; i >= 0; i-- {
+				tail = Ite(Eq(j, Add(SLen(s), IntLit(int64(i)))), elemVals[i], tail)
+			}
+			body := Ite(inRes, Ite(Lt(j, SLen(s)), Select(H, MkRef(Rid(SBase(s)), Add(Roff(SBase(s)), j))), tail), Select(H, q))
+			vc.setHeap(st, srt, vc.LambdaHeap("happ", srt, body))
+			return []Term{res}, nil
 		}
 		// in-place branch
 		inPlace := st.clone()
@@ -1692,4 +1747,87 @@ func (fr *Frame) funcEffects(fn *ssa.Function, ef *effects, depth int) {
 			}
 		}
 	}
+}
+
+// appendParts evaluates an appends clause in env (the pre-state of the call / the entry state
+// of the function): the slice, its element sort, and the count as an index term.
+func (vc *VC) appendParts(env *SpecEnv, as *AppendSpec) (b Term, es Sort, n Term, err error) {
+	pv, ok := env.vars[as.Param]
+	if !ok {
+		return b, es, n, fmt.Errorf("appends: no parameter %q", as.Param)
+	}
+	sl, ok := U(pv.Ty).(*types.Slice)
+	if !ok {
+		return b, es, n, fmt.Errorf("appends: %s is not a slice", as.Param)
+	}
+	if vc.tt.isAggregate(sl.Elem()) || vc.tt.Slots(sl.Elem()) != 1 {
+		return b, es, n, fmt.Errorf("appends: element type %s occupies several slots", sl.Elem())
+	}
+	es, err = vc.tt.SortOf(sl.Elem())
+	if err != nil {
+		return b, es, n, err
+	}
+	nv, err := env.Eval(as.N)
+	if err != nil {
+		return b, es, n, err
+	}
+	n = vc.toIndex(nv.T, nv.Ty)
+	if nv.Lit != nil {
+		n = IntLitBig(nv.Lit)
+	}
+	return pv.T, es, n, nil
+}
+
+type appendEffect struct {
+	res  Term // the appended slice
+	when Term // boolean constant: the append took place (True when unconditional)
+}
+
+// applyAppends is the caller's view of "appends p n": an exact heap transformer without
+// quantifiers. It updates the element heap and the allocation counter of st and returns
+// the resulting slice. With a when-condition the effect is guarded by a boolean constant
+// (bound to the condition once the results exist) and the whole spare capacity of the old
+// array counts as overwritten.
+func (vc *VC) applyAppends(st *State, env *SpecEnv, as *AppendSpec) (*appendEffect, error) {
+	b, es, n, err := vc.appendParts(env, as)
+	if err != nil {
+		return nil, err
+	}
+	q := Term{"q!r", SRef}
+	ln, cp, base := SLen(b), SCap(b), SBase(b)
+	st.assume(Ge(n, IntLit(0)))
+	when := True
+	if as.When != nil {
+		when = vc.Fresh("appwhen", SBool)
+	}
+	fits := vc.Define("fits", Le(Add(ln, n), cp))
+	H := vc.heap(st, es)
+	F := vc.Fresh("happ", heapSort(es))
+	newid := vc.Fresh("appobj", SInt)
+	newoff := vc.Fresh("appoff", SInt)
+	newcap := vc.Fresh("appcap", SInt)
+	st.assume(And(Ge(newid, st.alloc), Ge(newid, IntLit(1)), Ge(newoff, IntLit(0)),
+		Ge(newcap, Add(ln, n)), Lt(newcap, IntLitBig(pow2(62))),
+		Lt(App(SInt, "otype", newid), IntLit(0))))
+	// the part of the old array that may have been overwritten: n cells after the
+	// length when everything fits, otherwise (at most) the whole spare capacity
+	m := Ite(fits, n, Sub(cp, ln))
+	if as.When != nil {
+		m = Sub(cp, ln)
+	}
+	// Uniform description of the contents: element j of the result is element j of p for
+	// j < len(p) and new otherwise, wherever the result lives; only its base depends on fits.
+	res := vc.Define("app", Ite(fits, MkSlice(base, Add(ln, n), cp), MkSlice(MkRef(newid, newoff), Add(ln, n), newcap)))
+	rb := SBase(res)
+	j := Sub(Roff(q), Roff(rb))
+	inRes := And(when, Eq(Rid(q), Rid(rb)), Le(Roff(rb), Roff(q)), Lt(Roff(q), Add(Roff(rb), Add(ln, n))))
+	lo := Add(Roff(base), ln)
+	inOld := And(Eq(Rid(q), Rid(base)), Le(lo, Roff(q)), Lt(Roff(q), Add(lo, m)))
+	body := Ite(inRes, Ite(Lt(j, ln), Select(H, MkRef(Rid(base), Add(Roff(base), j))), Select(F, q)), Ite(inOld, Select(F, q), Select(H, q)))
+	nh := vc.LambdaHeap("happ", es, body)
+	st.alloc = vc.Define("alloc", Ite(And(when, Not(fits)), Add(newid, IntLit(1)), st.alloc))
+	st.heaps[es] = nh
+	st.touch(es)
+	vc.heapReg[es] = true
+	return &appendEffect{res: res, when: when}, nil
 }
